@@ -172,8 +172,10 @@ Definition nstep (n : node) (l : nlabel) : node * list nout :=
           let '(g', task, withdrawn) := unregister_service (n_reg n) s in
           let '(tbl, ids) := intern_list (n_tbl n) withdrawn in
           let ks := map (fun i => (i, [])) ids in
+          (* async_remove_answers: the withdrawn records leave the queues as answers and as additionals of other answers *)
           let strip (q : oq) := {| q_groups := map (fun g => {| g_after := g_after g; g_before := g_before g;
-                                                                g_answers := a_remove_keys (g_answers g) ks |}) (q_groups q);
+                                                                g_answers := map (fun kv => (fst kv, filter (fun x => negb (existsb (Z.eqb x) ids)) (snd kv)))
+                                                                                 (a_remove_keys (g_answers g) ks) |}) (q_groups q);
                                    q_timers := q_timers q; q_additional := q_additional q; q_aggregation := q_aggregation q |} in
           (set_queues (set_reg n g' (n_checks n) (d_set Z.eqb (n_tasks n) id task)) tbl (strip (n_q n)) (strip (n_qd n)),
            [OWithdrawn (names_of g') withdrawn])
